@@ -1453,6 +1453,10 @@ func (c *Conn) executeQuery(ctx context.Context, qry *Query) *Iter {
 			return &Iter{err: fmt.Errorf("gocql: expected %d values send got %d", info.request.actualColCount, len(values))}
 		}
 
+		if len(values) > len(info.request.columns) {
+			return &Iter{err: fmt.Errorf("gocql: the prepared statement describes %d of its %d bind markers", len(info.request.columns), len(values))}
+		}
+
 		params.values = make([]queryValues, len(values))
 		for i := 0; i < len(values); i++ {
 			v := &params.values[i]
@@ -1657,6 +1661,10 @@ func (c *Conn) executeBatch(ctx context.Context, batch *Batch) *Iter {
 
 			if len(values) != info.request.actualColCount {
 				return &Iter{err: fmt.Errorf("gocql: batch statement %d expected %d values send got %d", i, info.request.actualColCount, len(values))}
+			}
+
+			if len(values) > len(info.request.columns) {
+				return &Iter{err: fmt.Errorf("gocql: batch statement %d: the prepared statement describes %d of its %d bind markers", i, len(info.request.columns), len(values))}
 			}
 
 			b.preparedID = info.id
